@@ -593,35 +593,6 @@ func (b *i36Base) sym(id string) string {
 	return i36Short(id)
 }
 
-// behindMerge reports whether every id is a commit reachable from a non-first
-// parent of some merge commit (class predicate for the boundary walk that
-// skips such parents).
-func (b *i36Base) behindMerge(ids []string) bool {
-	set := map[int]bool{}
-	for _, ps := range b.dag.Parents {
-		if len(ps) > 1 {
-			for k := range b.dag.Reach(ps[1:]...) {
-				set[k] = true
-			}
-		}
-	}
-	if len(ids) == 0 {
-		return false
-	}
-	for _, id := range ids {
-		ok := false
-		for i, x := range b.ids {
-			if x == id && set[i] {
-				ok = true
-			}
-		}
-		if !ok {
-			return false
-		}
-	}
-	return true
-}
-
 // shallowKeys turns a shallow-boundary mismatch into finding keys. When go-git
 // is the server every differing commit is classified by a predicate on the
 // input (which part of the boundary walk handles it); one key per class. A
@@ -1083,7 +1054,8 @@ func (r *i36Run) cloneUnit(ui int, b *i36Base, srv *i36Srv, depths []int, protos
 			od := filepath.Join(c.TempDir("c36or"), "r")
 			ores := iGit(r.home, "", i36GitConf, gitArgs(url, od)...)
 			if ores.TimedOut {
-				fw.Abort("git->git oracle clone timed out: %s", req)
+				c.Incomplete("watchdog (60 s) expired on the git->git oracle run of " + req.String())
+				continue
 			}
 			if ores.Code != 0 {
 				fw.Abort("git->git oracle clone failed: %s: %s", req, ores.Err)
